@@ -160,8 +160,39 @@ func ruleSizeGuard(c *Ctx, pkgs ...string) {
 					}
 				}
 				k, isK := constInt(y)
-				ln, isLen := isBuiltinCall(x, "len")
-				if !isK || !isLen || !fromInput(ln.Call.Args[0], 0) {
+				// the size of an input container: len(x); x.Len() for a repository type; or the count field that
+				// the container's own Len method returns
+				var sized ssa.Value
+				desc := ""
+				if ln, isLen := isBuiltinCall(x, "len"); isLen && fromInput(ln.Call.Args[0], 0) {
+					sized = ln.Call.Args[0]
+					desc = "len(" + ksym(sized) + ")"
+				} else if call, ok := x.(*ssa.Call); ok {
+					if cal := staticCallee(&call.Call); cal != nil && cal.Name() == "Len" && cal.Blocks != nil && len(call.Call.Args) == 1 && fromInput(call.Call.Args[0], 0) {
+						sized = call.Call.Args[0]
+						desc = ksym(sized) + ".Len()"
+					}
+				} else if base, f := loadedField(x); f != nil && fromInput(base, 0) {
+					if nt := namedOf(base.Type()); nt != nil {
+						nt = nt.Origin()
+						for i := 0; i < nt.NumMethods(); i++ {
+							if nt.Method(i).Name() != "Len" {
+								continue
+							}
+							lf := P.SSA.FuncValue(nt.Method(i))
+							if lf == nil || len(lf.Blocks) != 1 {
+								continue
+							}
+							if ret, ok := lf.Blocks[0].Instrs[len(lf.Blocks[0].Instrs)-1].(*ssa.Return); ok && len(ret.Results) == 1 {
+								if _, g := loadedField(ret.Results[0]); g != nil && sameField(g, f) {
+									sized = x
+									desc = ksym(x)
+								}
+							}
+						}
+					}
+				}
+				if !isK || sized == nil {
 					continue
 				}
 				holds := func(v int64) bool {
@@ -197,13 +228,13 @@ func ruleSizeGuard(c *Ctx, pkgs ...string) {
 					n++
 					c.sawFn(fnName(fn))
 					lim := int64(trivialSize[pkg+"."+top.Name()])
-					key := fmt.Sprintf("%s:do-nothing exit on len(%s) #%d", fnName(fn), ksym(ln.Call.Args[0]), n)
+					key := fmt.Sprintf("%s:do-nothing exit on %s #%d", fnName(fn), desc, n)
 					if max > lim {
 						sz := fmt.Sprint(max)
 						if max == k+3 {
 							sz = "any larger size"
 						}
-						c.bad("R-SIZE-GUARD", key, bo.Pos(), fmt.Sprintf("the branch `len(%s) %s %d` sends containers of size up to %s through an exit that does nothing and answers with constants: their contents are ignored (only size ≤ %d needs no work here)", ksym(ln.Call.Args[0]), bo.Op, k, sz, lim))
+						c.bad("R-SIZE-GUARD", key, bo.Pos(), fmt.Sprintf("the branch `%s %s %d` sends containers of size up to %s through an exit that does nothing and answers with constants: their contents are ignored (only size ≤ %d needs no work here)", desc, bo.Op, k, sz, lim))
 					} else {
 						c.ok("R-SIZE-GUARD", key, bo.Pos(), fmt.Sprintf("covers sizes ≤ %d", max))
 					}
@@ -249,4 +280,73 @@ func plainValue(v ssa.Value, d int) bool {
 	}
 	_ = types.Typ
 	return false
+}
+
+// ruleConstIndex (R-CONST-INDEX, an inconsistent-belief rule): where a function has tested the length of an input
+// slice and then reaches into it at a CONSTANT position — x[k], x[k:] — the tests that dominate the access must
+// make the length at least k+1 (k for a slice start).  `if len(ss) == 0 { return }; min := ss[1]` believes "not
+// empty" and uses "at least two".  A function that never tests the length states no belief and is not judged.
+func ruleConstIndex(c *Ctx, pkgs ...string) {
+	c.rule("R-CONST-INDEX", 0, "a constant index (or slice start) into an input slice whose length the function tests is covered by the tests that dominate it")
+	for _, pkg := range pkgs {
+		for _, fn := range c.P.PkgFuncs(pkg) {
+			if c.P.isCanaryFn(fn) {
+				continue
+			}
+			fn := fn
+			n := 0
+			judge := func(in ssa.Instruction, xs ssa.Value, k int64, need int64, what string) {
+				if _, isParam := xs.(*ssa.Parameter); !isParam {
+					return
+				}
+				lb, tested := int64(0), false
+				for _, cm := range cmpsAt(in.Block()) {
+					x, y, op := cm.X, cm.Y, cm.Op
+					if _, isLen := isBuiltinCall(y, "len"); isLen {
+						x, y, op = y, x, flipOp(op)
+					}
+					ln, isLen := isBuiltinCall(x, "len")
+					kk, isK := constInt(y)
+					if !isLen || !isK || ln.Call.Args[0] != xs {
+						continue
+					}
+					tested = true
+					switch op {
+					case token.NEQ:
+						if kk == 0 {
+							lb = max(lb, 1)
+						}
+					case token.GTR:
+						lb = max(lb, kk+1)
+					case token.GEQ, token.EQL:
+						lb = max(lb, kk)
+					}
+				}
+				if !tested {
+					return
+				}
+				n++
+				c.sawFn(fnName(fn))
+				c.judge(lb >= need, "R-CONST-INDEX", fmt.Sprintf("%s:%s #%d", fnName(fn), what, n), in.Pos(), fmt.Sprintf("length known ≥ %d", lb), fmt.Sprintf("%s needs len(%s) ≥ %d, but the tests that lead here only make it ≥ %d: for a slice of %d element(s) this panics", what, ksym(xs), need, lb, lb))
+			}
+			allInstrs(fn, func(in ssa.Instruction) {
+				switch x := in.(type) {
+				case *ssa.IndexAddr:
+					if k, ok := constInt(x.Index); ok && k >= 0 {
+						if _, isSlice := x.X.Type().Underlying().(*types.Slice); isSlice {
+							judge(in, x.X, k, k+1, fmt.Sprintf("%s[%d]", ksym(x.X), k))
+						}
+					}
+				case *ssa.Slice:
+					if x.Low != nil {
+						if k, ok := constInt(x.Low); ok && k > 0 {
+							if _, isSlice := x.X.Type().Underlying().(*types.Slice); isSlice {
+								judge(in, x.X, k, k, fmt.Sprintf("%s[%d:]", ksym(x.X), k))
+							}
+						}
+					}
+				}
+			})
+		}
+	}
 }
